@@ -540,6 +540,106 @@ def gen_ramp_case(rnd):
     return case
 
 
+# ----- stream "splitfail": split set-ups that RAISE in one of their intervals (data that is fine at first and invalid from some step on),
+# followed by set-ups WITHOUT grid argument: "the grid set before" must not be the temporary grid of the interval that failed
+CAP_TYPES = ('SimpleContract', 'Contract')
+
+
+def poisonable(base):
+    """(asset name, parameter, key, value that makes the set-up raise) for every parameter of the scenario that is a KEY into the data and
+    whose series can be made invalid: a maximum capacity far below every minimum capacity (contracts: ill-posed; plants: negative),
+    a fuel efficiency / power-heat conversion factor of zero"""
+    out = []
+    for a in scen.all_asset_specs(base):
+        args = a.get('args', {})
+        if isinstance(args.get('max_cap'), str) and a['type'] in CAP_TYPES + PLANT_TYPES:
+            out.append((a['name'], 'max_cap', args['max_cap'], -50.0))
+        if a['type'] in PLANT_TYPES:
+            for k in ('fuel_efficiency', 'conversion_factor_power_heat'):
+                if isinstance(args.get(k), str):
+                    out.append((a['name'], k, args[k], 0.0))
+    return out
+
+
+def gen_splitfail_case(rnd):
+    """a random prefix of 0-4 calls, then - in half of the cases after a set-up of the portfolio on the same grid - a split set-up
+    (1 of 5: io.optimize with intervals) on a data set that is valid up to some step and INVALID from there on (a capacity / efficiency
+    given as key into the data: maximum below minimum capacity, efficiency zero; 1 of 8: a data set of the wrong length instead), so that
+    the set-up raises in the first or - 3 of 4 - in a later interval; then 1-3 set-ups WITHOUT grid argument (portfolio, top-level assets)
+    with valid data, some optimised and read out, and sometimes one more set-up with grid"""
+    kinds = ['simple', 'simple', 'contract', 'contract', 'storage', 'transport', 'plant', 'chp', 'scaled', 'structured', 'multi']
+    base = gen.gen_portfolio(rnd, kinds=kinds, tmin=4, tmax=12, tz_prob=0.1, allow_mip=rnd.random() < 0.2, max_assets=rnd.choice([1, 2, 3]),
+                             allow_freq=False, allow_periodic=False, allow_blocks=False)
+    g0 = {k: v for k, v in base['grid'].items()}
+    T0 = _T(g0)
+    if rnd.random() < 0.5:
+        vary_data_keys(rnd, base, False)
+    if not poisonable(base) or rnd.random() < 0.3:
+        # a scalar maximum capacity of a contract re-expressed as a key (constant series)
+        cs = [a for a in scen.all_asset_specs(base) if a['type'] in CAP_TYPES and isinstance(a['args'].get('max_cap'), (int, float))]
+        if cs:
+            a = rnd.choice(cs)
+            key = 'capz_%s' % a['name']
+            base['prices'][key] = [float(a['args']['max_cap'])] * T0
+            a['args']['max_cap'] = key
+    vary_forms(rnd, base)
+    grids = [g0] + grid_variants(rnd, g0, rnd.randint(0, 2))
+    case = finish_case(rnd, base, grids, hist_len=rnd.randint(1, 4), mismatch_p=0.03)
+    if rnd.random() < 0.25:
+        case['history'] = []
+    case['stream'] = 'splitfail'
+    prices, Ts = case['prices'], [_T(g) for g in grids]
+    gid = rnd.choice([i for i, t in enumerate(Ts) if t >= 2] or [0])
+    T = Ts[gid]
+    good = [i for i, p in enumerate(prices) if p['T'] == T]
+    m = max(1, T // rnd.choice([2, 3, 4]))                 # steps per interval
+    iv = _tick(m * grids[gid]['step_s'])
+    pz = poisonable(base)
+    if pz and rnd.random() < 0.875:
+        name, par, key, badv = rnd.choice(pz)
+        s0 = rnd.randint(m, T - 1) if (T > m and rnd.random() < 0.75) else rnd.randint(0, max(0, min(m, T) - 1))
+        bad = copy.deepcopy(prices[rnd.choice(good)])
+        bad['data'][key] = [v if t < s0 else badv for t, v in enumerate(bad['data'][key])]
+        bad['poison'] = {'asset': name, 'parameter': par, 'key': key, 'from_step': s0}
+        prices.append(bad)
+        bad_pid = len(prices) - 1
+    else:
+        other = [i for i, p in enumerate(prices) if p['T'] != T]
+        if not other:
+            prices.append({'T': T + 1, 'form': 'dict', 'data': {k: list(v) + [v[-1]] for k, v in prices[good[0]]['data'].items()}})
+            other = [len(prices) - 1]
+        bad_pid = rnd.choice(other)
+    names = spec_names(base)
+    top = [n for n, t, tp in names if tp]
+    reuse = lambda: rnd.random() < 0.6
+    tail = []
+    if rnd.random() < 0.5:
+        tail.append({'op': rnd.choice(['pf_setup', 'pf_setup', 'pf_split']), 'grid': gid, 'reuse': reuse(), 'prices': rnd.choice(good), 'interval': iv})
+        if tail[-1]['op'] == 'pf_setup':
+            tail[-1].pop('interval')
+    if rnd.random() < 0.2:
+        tail.append({'op': 'io_optimize', 'grid': gid, 'reuse': reuse(), 'prices': bad_pid, 'interval': iv})
+    else:
+        tail.append({'op': 'pf_split', 'grid': gid, 'reuse': reuse(), 'prices': bad_pid, 'interval': iv})
+    for _ in range(rnd.randint(1, 3)):
+        if rnd.random() < 0.5:
+            tail.append({'op': 'pf_setup', 'grid': gid, 'reuse': True, 'prices': rnd.choice(good), 'noarg': True})
+            if rnd.random() < 0.4:
+                tail.append({'op': 'optimize', 'soft': False})
+                tail.append({'op': rnd.choice(['extract', 'dcf']), 'asset': rnd.choice(top)})
+        else:
+            tail.append({'op': 'asset_noarg', 'asset': rnd.choice(top), 'prices': rnd.choice(good)})
+    if rnd.random() < 0.3:
+        g2 = rnd.randrange(len(grids))
+        ok2 = [i for i, p in enumerate(prices) if p['T'] == Ts[g2] and 'poison' not in p] or [0]
+        tail.append({'op': rnd.choice(['pf_setup', 'pf_split']), 'grid': g2, 'reuse': reuse(), 'prices': rnd.choice(ok2),
+                     'interval': _tick(max(1, Ts[g2] // 2) * grids[g2]['step_s'])})
+        if tail[-1]['op'] == 'pf_setup':
+            tail[-1].pop('interval')
+    case['history'] = case['history'] + tail
+    return case
+
+
 # ===================================================================== canonical forms
 def _san(a):
     a = np.array(a, dtype=float, copy=True).ravel()
@@ -697,6 +797,7 @@ class World:
         self.pcont = {}
         self.fixes = {}
         self.born = {}
+        self.split_started = None      # number of interval set-ups the last split set-up began (None: the last call was no split)
 
     def _walk(self, a):
         self.byname[a.name] = a
@@ -869,8 +970,19 @@ def run_setup_call(world, call, expected_gid=None, capture_io=True):
         gid = expected_gid if call.get('noarg') else call['grid']
         return 'problem', portf.setup_optim_problem(world.prices(call['prices']), world.grid(gid, call.get('reuse', True)), **kw)
     if op_ == 'pf_split':
-        return 'split', portf.setup_split_optim_problem(world.prices(call['prices']), world.grid(call['grid'], call.get('reuse', True)),
-                                                        interval_size=call['interval'])
+        # (the set-ups of the intervals are counted: where a split set-up raised is a feature of the case)
+        world.split_started = 0
+        orig_su = portf.setup_optim_problem
+
+        def counted(*a, _o=orig_su, **kw):
+            world.split_started += 1
+            return _o(*a, **kw)
+        portf.__dict__['setup_optim_problem'] = counted
+        try:
+            return 'split', portf.setup_split_optim_problem(world.prices(call['prices']), world.grid(call['grid'], call.get('reuse', True)),
+                                                            interval_size=call['interval'])
+        finally:
+            portf.__dict__.pop('setup_optim_problem', None)
     if op_ == 'cost_samples':
         return 'costs', portf.create_cost_samples([world.prices(p) for p in call['prices']], world.grid(call['grid'], call.get('reuse', True)))
     if op_ == 'io_optimize':
@@ -880,17 +992,22 @@ def run_setup_call(world, call, expected_gid=None, capture_io=True):
             orig = getattr(portf, nm)
 
             def wrapped(*a, _o=orig, _n=nm, **kw):
+                if _n == 'setup_optim_problem' and call.get('interval'):
+                    world.split_started += 1
                 r = _o(*a, **kw)
                 if _n not in caught and not kw.get('costs_only', False):
                     caught[_n] = r
                 return r
             portf.__dict__[nm] = wrapped
+        world.split_started = 0 if call.get('interval') else None
         try:
             try:
                 eao.io.optimize(portf, world.grid(call['grid'], call.get('reuse', True)), world.prices(call['prices']),
                                 split_interval_size=call.get('interval'))
             except Exception:
-                if not caught:
+                # an exception AFTER the set-up part (solver, read-out) is not the set-up's; one inside it is
+                # (with intervals: the set-up part is done when the split set-up returned, not when its first interval did)
+                if ('setup_split_optim_problem' if call.get('interval') else 'setup_optim_problem') not in caught:
                     raise
         finally:
             for nm in names:
@@ -994,6 +1111,13 @@ def execute(case, compare=True, stop_at_first=False):
                     if exp_gid == '?':
                         comparable = False
                         exp_gid = None
+                # "the grid set before" after a split set-up that RAISED: the grid of that call or the one the object sat on before it
+                # (a tuple of candidate grid ids, the grid of the failed call last); never the temporary grid of an interval
+                cands = list(exp_gid) if isinstance(exp_gid, tuple) else [exp_gid]
+                if isinstance(exp_gid, tuple):
+                    feats.append('noarg-after-failed-split')
+                    if not comparable:
+                        exp_gid = None
                 if o == 'pf_setup' and call.get('fix') is not None:
                     try:
                         call['_fixdict'] = _fix_dict(H, call, fresh_world)
@@ -1002,11 +1126,67 @@ def execute(case, compare=True, stop_at_first=False):
                         call.pop('fix')
                 # history side
                 h_err, h_kind, h_val = None, None, None
+                H.split_started = None
                 try:
                     h_kind, h_val = run_setup_call(H, call)
                     h_kind = _kind_of(h_kind, h_val)
                 except Exception as e:
                     h_err = e
+                split_like = o == 'pf_split' or (o == 'io_optimize' and call.get('interval'))
+                if split_like and h_err is not None and H.split_started is not None:
+                    feats.append('split-raises:' + ('before-the-intervals' if H.split_started == 0 else 'in-interval-1' if H.split_started == 1 else 'in-a-later-interval'))
+                # fresh side
+                if comparable:
+                    for cand in cands:
+                        viol = None
+                        F = fresh_world()
+                        fcall = dict(call)
+                        fcall['reuse'] = False
+                        if 'fix' in call:
+                            fcall['_fixdict'] = copy.deepcopy(call['_fixdict'])
+                        f_err, f_kind, f_val = None, None, None
+                        try:
+                            f_kind, f_val = run_setup_call(F, fcall, expected_gid=cand)
+                            f_kind = _kind_of(f_kind, f_val)
+                        except Exception as e:
+                            f_err = e
+                        cfeat = None
+                        if h_err is not None and f_err is None:
+                            viol = ('history_raises', '%s: %s' % (type(h_err).__name__, str(h_err)[:200]))
+                        elif h_err is None and f_err is not None:
+                            viol = ('fresh_raises_only', '%s: %s' % (type(f_err).__name__, str(f_err)[:200]))
+                        elif h_err is not None:
+                            cfeat = 'both-raise:' + err_class(h_err)
+                            if err_class(h_err) != err_class(f_err):
+                                out['facts'].append({'kind': 'error_class_differs', 'call': i, 'history': err_class(h_err), 'fresh': err_class(f_err)})
+                        else:
+                            if h_kind != f_kind:
+                                viol = ('result_differs', 'kind %s (fresh) vs %s (history)' % (f_kind, h_kind))
+                            else:
+                                try:
+                                    ds = diff_result(h_kind, canon_result(f_kind, f_val), canon_result(h_kind, h_val))
+                                except Exception as e:
+                                    ds = []
+                                    feats.append('canon-error:' + type(e).__name__)
+                                if ds:
+                                    viol = ('result_differs', '; '.join(ds[:3]))
+                                else:
+                                    cfeat = 'equal:' + h_kind
+                        if viol is None:
+                            exp_gid = cand
+                            if cfeat:
+                                feats.append(cfeat)
+                            break
+                    else:
+                        # no candidate fits: reported against the grid of the failed call (the last candidate)
+                        exp_gid = cands[-1]
+                    out['n_compared'] += 1
+                    if len(cands) > 1:
+                        feats.append('noarg-after-failed-split:compared')
+                        if viol is not None:
+                            viol = (viol[0], viol[1] + ' [after a split set-up that raised; compared with a fresh tree on each of the grids %s]' % (cands,))
+                elif isinstance(exp_gid, tuple):
+                    exp_gid = None
                 # tracking
                 gid_now = call.get('grid') if not (o == 'asset_noarg' or call.get('noarg')) else exp_gid
                 if o in ('asset_setup', 'asset_noarg'):
@@ -1014,42 +1194,16 @@ def execute(case, compare=True, stop_at_first=False):
                 else:
                     touched = list(H.byname) + ['__pf__']
                 for n in touched:
-                    ctx.tracked[n] = '?' if (h_err is not None or gid_now is None) else gid_now
-                # fresh side
-                if comparable:
-                    F = fresh_world()
-                    fcall = dict(call)
-                    fcall['reuse'] = False
-                    if 'fix' in call:
-                        fcall['_fixdict'] = copy.deepcopy(call['_fixdict'])
-                    f_err, f_kind, f_val = None, None, None
-                    try:
-                        f_kind, f_val = run_setup_call(F, fcall, expected_gid=exp_gid)
-                        f_kind = _kind_of(f_kind, f_val)
-                    except Exception as e:
-                        f_err = e
-                    out['n_compared'] += 1
-                    if h_err is not None and f_err is None:
-                        viol = ('history_raises', '%s: %s' % (type(h_err).__name__, str(h_err)[:200]))
-                    elif h_err is None and f_err is not None:
-                        viol = ('fresh_raises_only', '%s: %s' % (type(f_err).__name__, str(f_err)[:200]))
-                    elif h_err is not None:
-                        feats.append('both-raise:' + err_class(h_err))
-                        if err_class(h_err) != err_class(f_err):
-                            out['facts'].append({'kind': 'error_class_differs', 'call': i, 'history': err_class(h_err), 'fresh': err_class(f_err)})
-                    else:
-                        if h_kind != f_kind:
-                            viol = ('result_differs', 'kind %s (fresh) vs %s (history)' % (f_kind, h_kind))
+                    if split_like and h_err is not None and gid_now is not None:
+                        # a split set-up that raised: see above
+                        prev = ctx.tracked[n]
+                        if prev is None or prev == '?':
+                            ctx.tracked[n] = '?'
                         else:
-                            try:
-                                ds = diff_result(h_kind, canon_result(f_kind, f_val), canon_result(h_kind, h_val))
-                            except Exception as e:
-                                ds = []
-                                feats.append('canon-error:' + type(e).__name__)
-                            if ds:
-                                viol = ('result_differs', '; '.join(ds[:3]))
-                            else:
-                                feats.append('equal:' + h_kind)
+                            cs = [c for c in (prev if isinstance(prev, tuple) else (prev,)) if c != gid_now] + [gid_now]
+                            ctx.tracked[n] = cs[0] if len(cs) == 1 else tuple(cs)
+                    else:
+                        ctx.tracked[n] = '?' if (h_err is not None or gid_now is None) else gid_now
                 if h_err is None and h_kind in ('problem', 'split') and o != 'asset_setup' and o != 'asset_noarg':
                     gid_l = gid_now
                     ctx.last = {'kind': h_kind, 'op': h_val, 'call': dict(call), 'index': i, 'gid': gid_l,
@@ -1962,6 +2116,7 @@ def scenarios(seed, tier):
     n, m = (400, 250) if tier == 'quick' else (2500, 1500)
     nf, nd = (150, 150) if tier == 'quick' else (1200, 1200)
     nr = 150 if tier == 'quick' else 1200
+    ns = 200 if tier == 'quick' else 1500
     rnd = random.Random(seed * 7919 + 10)
     for name, c in witness_cases().items():
         yield 'witness:' + name, c
@@ -1977,6 +2132,9 @@ def scenarios(seed, tier):
     rnd3 = random.Random(seed * 7919 + 2010)
     for i in range(nr):
         yield 'ramp%d' % i, gen_ramp_case(random.Random(rnd3.getrandbits(48)))
+    rnd4 = random.Random(seed * 7919 + 3010)
+    for i in range(ns):
+        yield 'splitfail%d' % i, gen_splitfail_case(random.Random(rnd4.getrandbits(48)))
 
 
 def _step_of(freq):
